@@ -6,7 +6,7 @@ import os
 import sys
 from collections import defaultdict
 
-from ..cli import C, find_config_dir, _check_deprecated_description_cleaning, _print_deprecation_warnings
+from ..cli import C, find_config_dir, _check_deprecated_description_cleaning, _print_deprecation_warnings, _exit_if_rules_unloadable
 from ..config_loader import load_config, load_supplemental_sources
 from ..merchant_utils import get_all_rules, get_transforms
 from ..analyzer import parse_amex, parse_boa, parse_generic_csv
@@ -40,6 +40,8 @@ def cmd_discover(args):
 
     data_sources = config.get('data_sources', [])
     rule_mode = config.get('rule_mode', 'first_match')
+    # Same as 'tally up': a rules file that cannot be loaded is an error, not an empty rule set
+    _exit_if_rules_unloadable(config.get('_merchants_file'), rule_mode)
     transforms = get_transforms(config.get('_merchants_file'), match_mode=rule_mode)
 
     if not data_sources:
